@@ -2,7 +2,7 @@
    Only statements here; each is closed by `exact <lemma>` from proofs/P_coordmgr.v. *)
 From Coq Require Import ZArith Reals List Bool String.
 From PW Require Import Num NumR Vec Mat NpList Result.
-From PW.model Require Import M_rodrigues M_affine M_rotation M_composite M_coordmgr.
+From PW.model Require Import M_rodrigues M_affine M_rotation M_composite M_coordmgr M_affine_spec M_composite_spec M_coordmgr_spec.
 From PW.proofs Require Import P_affine P_rotation P_composite P_coordmgr.
 Import ListNotations.
 Local Open Scope R_scope.
